@@ -274,6 +274,25 @@ def constructSupplemented (Infer : InferFn)
   | .error e => .error e
   | .ok std => own c std
 
+/-! ## Operators outside the standard routine -/
+
+/-- operators (domain, name, since_version) whose class has its own `infer_output_types`: for these
+    only "rejects at least what ONNX rejects" is demanded (`constructSupplemented` for the two that
+    run the standard routine first; the ml operators replace it - known findings) -/
+def supplemented : List (String × String × Nat) := [
+  ("", "Compress", 11), ("", "Loop", 16),
+  ("ai.onnx.ml", "ArrayFeatureExtractor", 1), ("ai.onnx.ml", "Binarizer", 1),
+  ("ai.onnx.ml", "CategoryMapper", 1), ("ai.onnx.ml", "Imputer", 1),
+  ("ai.onnx.ml", "LinearRegressor", 1), ("ai.onnx.ml", "Normalizer", 1),
+  ("ai.onnx.ml", "OneHotEncoder", 1), ("ai.onnx.ml", "Scaler", 1),
+  ("ai.onnx.ml", "TreeEnsembleClassifier", 3), ("ai.onnx.ml", "TreeEnsembleRegressor", 3)]
+
+/-- those of them whose override runs the standard routine first (`constructSupplemented`) -/
+def standardFirst : List (String × String × Nat) := [("", "Compress", 11), ("", "Loop", 16)]
+
+/-- operators with their own `propagate_values` (their results carry a value whatever the backend) -/
+def ownPropagation : List (String × String × Nat) := [("", "Constant", 13), ("", "Constant", 19), ("", "Constant", 21)]
+
 /-! ## Value propagation (`Node.inference`, second half) -/
 
 structure OutVar where
